@@ -108,3 +108,10 @@ Theorem C03_refuted_readonly_end_below_log_end :
   = [(1, Some 1)].
 Proof. exact end_without_leo_ends_early. Qed.
 Print Assumptions C03_refuted_readonly_end_below_log_end.
+
+(* progress in the extended system: a reader that is neither parked nor ended and whose next message is
+   covered by the HW delivers it after one look at the HW *)
+Theorem C03_ro_progress_enabled : forall s i r, nth_error (w_readers s) i = Some r -> ractive r = true -> n_next r <= w_hw s ->
+  exists r', nth_error (w_readers (wstep wcode (wstep wcode s (WSync i)) (WDeliver i))) i = Some r' /\ n_next r' = n_next r + 1.
+Proof. exact ro_progress_enabled. Qed.
+Print Assumptions C03_ro_progress_enabled.
